@@ -102,9 +102,12 @@ TypeOf(e, ctx) ==
     [] e.k = "app" -> "multi"
     [] OTHER -> "?unknown-expression"
 
+RECURSIVE Unwrap(_)
+Unwrap(e) == IF e.k = "group" THEN Unwrap(e.e) ELSE e
 \* types delivered by a list of values: one multi-valued call alone, or single values
 ValueTypes(vals, ctx) ==
   IF Len(vals) = 1 /\ vals[1].k = "call" /\ TypeOf(vals[1], ctx) = "multi" THEN ctx.funcs[vals[1].name].results
+  ELSE IF Len(vals) = 1 /\ vals[1].k = "group" /\ Unwrap(vals[1]).k = "call" /\ TypeOf(Unwrap(vals[1]), ctx) = "multi" THEN <<"?parenthesised-multi-valued-call">>
   ELSE IF Len(vals) = 1 /\ vals[1].k = "app" THEN <<"string", "string", "int">>
   ELSE [i \in 1..Len(vals) |-> Opnd(vals[i], ctx)]
 
@@ -123,6 +126,10 @@ CheckBody(ss, ctx, i) == IF i > Len(ss) THEN Ok(ctx) ELSE LET r == CheckStmt(ss[
 CheckDefine(s, ctx) ==
   LET names == s.names
       new == {i \in 1..Len(names) : ~Visible(ctx, names[i])}
+      \* inside a function a short definition that introduces at least one new name declares ALL its names in the function's scope: a name that so far
+      \* denoted a global becomes a new local (Go: := only reuses variables declared in the same scope)
+      shadow == {i \in 1..Len(names) : Visible(ctx, names[i]) /\ s.form = "short" /\ ~TopLevel(ctx) /\ names[i] \in ctx.globals}
+      Local(c) == [c EXCEPT !.globals = @ \ {names[i] : i \in shadow}]
   IN IF ~Distinct(names) THEN R("?duplicate-names-in-one-definition", ctx)
      ELSE IF s.values = <<>>
      THEN (IF s.form # "var" \/ s.ty = "" THEN R("!definition-without-type-or-value", ctx)
@@ -132,12 +139,14 @@ CheckDefine(s, ctx) ==
           IF FirstErr(ts, 1) # "" THEN R(FirstErr(ts, 1), ctx)
           ELSE IF Len(ts) # Len(names) THEN R("!value-count", ctx)
           ELSE IF s.form = "var" /\ Cardinality(new) # Len(names) THEN R("!redefinition", ctx)
+          ELSE IF new = {} /\ shadow # {} /\ Len(names) > 1 THEN R("?short-definition-of-globals-only-in-a-function", ctx)
+          \* TshDyn keeps one frame per activation, not per block: a global shadowed only inside a nested block is outside what it can state
+          ELSE IF new # {} /\ shadow # {} /\ ctx.scopes # <<"func">> THEN R("?global-shadowed-in-a-nested-block", ctx)
           ELSE IF new = {} THEN R("!no-new-variable", ctx)
           ELSE IF Len(names) = 1 /\ Cardinality(new) = 0 THEN R("!redefinition", ctx)
           ELSE IF s.ty # "" /\ \E i \in 1..Len(ts) : ts[i] # Norm(s.ty) THEN R("!definition-type", ctx)
-          ELSE IF \E i \in 1..Len(names) : i \notin new /\ ctx.vars[names[i]] # ts[i] THEN R("!assignment-type", ctx)
-          ELSE IF \E i \in 1..Len(names) : i \notin new /\ ~TopLevel(ctx) /\ names[i] \in ctx.globals THEN R("?short-definition-reusing-a-global", ctx)
-          ELSE Ok(BindAll(ctx, names, ts, 1))
+          ELSE IF \E i \in 1..Len(names) : i \notin new /\ i \notin shadow /\ ctx.vars[names[i]] # ts[i] THEN R("!assignment-type", ctx)
+          ELSE Ok(BindAll(Local(ctx), names, ts, 1))
 CheckAssign(s, ctx) ==
   LET ts == ValueTypes(s.values, ctx) IN
   IF \E i \in 1..Len(s.names) : ~Visible(ctx, s.names[i]) THEN R("!undefined-variable", ctx)
@@ -211,13 +220,13 @@ CheckStmt(s, ctx) ==
     [] s.k = "break" -> (IF InScope(ctx, "for") THEN Ok(ctx) ELSE R("!break-outside-loop", ctx))
     [] s.k = "continue" -> (IF InScope(ctx, "for") THEN Ok(ctx) ELSE R("!continue-outside-loop", ctx))
     [] s.k = "return" -> (IF ~InScope(ctx, "func") THEN R("!return-outside-function", ctx)
-                          ELSE LET ts == [i \in 1..Len(s.values) |-> Opnd(s.values[i], ctx)] IN
+                          ELSE LET ts == ValueTypes(s.values, ctx) IN        \* return f() forwards all results of f
                                IF FirstErr(ts, 1) # "" THEN R(FirstErr(ts, 1), ctx)
                                ELSE IF Len(ts) # Len(ctx.results) THEN R("!return-count", ctx)
                                ELSE IF \E i \in 1..Len(ts) : ts[i] # ctx.results[i] THEN R("!return-type", ctx)
                                ELSE IF ts = <<>> THEN R("?bare-return", ctx) ELSE Ok(ctx))
     [] s.k = "print" -> (LET ts == [i \in 1..Len(s.args) |-> Opnd(s.args[i], ctx)] IN
-                         IF \E i \in 1..Len(s.args) : TypeOf(s.args[i], ctx) = "multi" THEN R("?print-of-multi-valued-call", ctx)   \* f(g()) is legal Go
+                         IF Len(s.args) = 1 /\ TypeOf(Unwrap(s.args[1]), ctx) = "multi" THEN R("?print-of-multi-valued-call", ctx)   \* f(g()) is legal Go
                          ELSE IF FirstErr(ts, 1) # "" THEN R(FirstErr(ts, 1), ctx)
                          ELSE IF \E i \in 1..Len(ts) : IsSlice(ts[i]) THEN R("?print-of-slice", ctx) ELSE Ok(ctx))
     [] s.k = "panic" -> (LET t == Opnd(s.e, ctx) IN IF IsErr(t) THEN R(t, ctx) ELSE IF t # "string" THEN R("?panic-argument-type", ctx) ELSE Ok(ctx))
@@ -225,9 +234,9 @@ CheckStmt(s, ctx) ==
                              d == Expect(s.data, ctx, "string", "write-data-type")
                              a == IF IsNoneN(s.append) THEN "" ELSE Expect(s.append, ctx, "bool", "write-append-type")
                          IN IF p # "" THEN R(p, ctx) ELSE IF d # "" THEN R(d, ctx) ELSE IF a # "" THEN R(a, ctx) ELSE Ok(ctx))
-    [] s.k = "expr" -> (LET t == TypeOf(s.e, ctx) IN
+    [] s.k = "expr" -> (LET t == TypeOf(Unwrap(s.e), ctx) IN
                         IF IsErr(t) THEN R(t, ctx)
-                        ELSE IF s.e.k \notin {"call", "app", "copy", "input", "read"} THEN R("?expression-statement-without-effect", ctx) ELSE Ok(ctx))
+                        ELSE IF Unwrap(s.e).k \notin {"call", "app", "copy", "input", "read"} THEN R("?expression-statement-without-effect", ctx) ELSE Ok(ctx))
     [] s.k = "func" -> CheckFunc(s, ctx)
     [] OTHER -> R("?unknown-statement", ctx)
 
